@@ -73,6 +73,10 @@ def cases(tier, rng, schema, feats):
             vals.append(mutate.random_item(rng, 0, 5))
         keys.append("deep")
         vals.append(mutate.nested(16, mutate.random_item(rng, 0, 2), "array"))
+        # long names (a name copied into a bounded buffer 'for the log' would not fit): 31, 32, 33, 64 and 300 bytes
+        for ln in (31, 32, 33, 64, 300):
+            keys.append("enforceCredentialProtectionPolicy"[:ln] if ln <= 33 else "n" * ln)
+            vals.append(rng.chance(1, 2))
         return list(zip(keys, vals))
 
     # names that are members (or aliases) of SOME map of the specification: in a host that does not define
